@@ -18,7 +18,10 @@ PROP = dict(
                '(EMSA-PKCS1-v1_5, EMSA-PSS encode/verify, DER for ECDSA; each cross-checked against OpenSSL at start-up or per case; a '
                'disagreement is counted as ORACLE-DISAGREE and discarded), ASan/UBSan for the over-read part. Key pool: 15 RSA keys '
                '(1024/1536/2048/3072/4096 x e in {3,17,65537}), 25 EC keys (5 curves x {2 random, d=1, d=2, d=n-1}) plus tape-derived EC, '
-               'Ed25519 and X25519 keys, 4 DH groups. RSA-1536 is used for public-key operations only: pstm_exptmod refuses 768-bit '
+               'Ed25519 and X25519 keys, 4 DH groups. pstm_read_asn reads INTEGER contents octets as an unsigned magnitude; that documented laxness '
+               '(redundant leading 00 octets, a missing sign octet read as positive, non-DER length forms, trailing bytes) is counted, but a blob whose '
+               'integers verify under neither the DER (two\'s complement) nor the unsigned reading must be refused: a negative r, s, modulus or exponent never verifies. '
+               'DH public values travel as raw octets (psDhImportPubKey), Ed25519/X25519 values are raw: no DER INTEGER there. RSA-1536 is used for public-key operations only: pstm_exptmod refuses 768-bit '
                'moduli by design, so CRT private-key operations are unsupported for that size. Laxness that does not change the integers '
                'being verified (BER forms of the ECDSA wrapper, zero-padded point coordinates, leading zero octets on a PSS signature) is '
                'reported in counters (lax*/note*), not as violations.',
@@ -28,7 +31,11 @@ PROP = dict(
          'absent/extra/garbage NULL params, wrong OID, digest length +-1, trailing bytes in/after DigestInfo, long-form lengths, outer length +-1, OCTET STRING tag, other hash, wrong digest}; '
          'PSS {trailer, top bits, MGF hash, salt length, PS, separator, H, any byte, wrong digest, s+n, |S|}; type-2 unpadding with PS length 0..12 and structural errors; '
          'ECDSA (r,s) in {valid,0,1,n-1,n,n+r,n+s,high-s,negated,>=p,bit flips,swapped,other key}, digest shorter/longer than the curve, u1G=+-u2Q constructions, '
-         'DER prefixes/patched lengths/lax forms/byte edits; points {off-curve variants, infinity encodings, coordinates >= p, wrong length, compressed/hybrid, wrong curve, every prefix}; '
+         'DER prefixes/patched lengths/lax forms/byte edits; DER INTEGER encodings of a genuine (r,s): values {r,s, high-s, s-n, -s, s-2n, r-n, -r, r-2n, (r-n,s-n), (-r,-s)} '
+         '(negative ones as two\'s complement) x INTEGER form {minimal, 1-3 redundant sign octets 00/ff, missing leading zero, opposite sign octet, zero-length, 81/82 length, indefinite} '
+         'x SEQUENCE form {DER, trailing bytes inside/after, longer length form, 84 length, indefinite, length too short / beyond the buffer}, judged from the bytes: must accept iff the strict DER '
+         'reading (own reader, each INTEGER cross-checked with d2i/i2d_ASN1_INTEGER) gives r,s in [1,n-1] that verify, may accept only if the unsigned-contents reading verifies, else must refuse; '
+         'the same value/form/SEQUENCE grid on the RSAPublicKey INTEGERs (N, e, -N, -e) parsed with psRsaParseAsnPubKey, then a genuine and a wrong-digest signature verified under the parsed key; points {off-curve variants, infinity encodings, coordinates >= p, wrong length, compressed/hybrid, wrong curve, every prefix}; '
          'DH public values {0,1,2,p-2,p-1,p,p+1,2p-1,p+y,random>=p}; X25519 low-order / non-canonical / random u; Ed25519 {bit flips in R,S,msg,key, S+kL, S=L, R=0, S=0}. '
          'Oracle = accept iff the block recovered with OpenSSL equals the one canonical encoding / is a valid PSS encoding / SEC1 4.1.4 holds on raw r,s / OpenSSL accepts (Ed25519), '
          'results byte-equal to OpenSSL for signing (deterministic schemes), encryption round trips and shared secrets; no sanitizer report. '
